@@ -102,7 +102,7 @@ func genActions(r *Rng, n int, panicPct int) []Action {
 			out = append(out, Action{4, r.Pick([]string{"k1", "k2"}), ""})
 		default:
 			if r.Pct(panicPct) {
-				out = append(out, Action{5, r.Pick([]string{"boom", "bang"}), ""})
+				out = append(out, Action{5, r.Pick([]string{"boom", "bang", "boom", abortText}), ""})
 			}
 		}
 	}
@@ -348,9 +348,20 @@ func runActions(l []Action, rq *restful.Request, rp *restful.Response, lg *reqLo
 			}
 			lg.add("see:" + a.A + "=" + v)
 		case 5:
-			panic(a.A)
+			panicWith(a.A)
 		}
 	}
+}
+
+// panic values are strings, except one: net/http's own sentinel error (its text is what fmt prints for it, so the
+// model, which knows panic values as text, needs no special case)
+var abortText = http.ErrAbortHandler.Error()
+
+func panicWith(text string) {
+	if text == abortText {
+		panic(http.ErrAbortHandler)
+	}
+	panic(text)
 }
 
 type ctxKey string
@@ -366,7 +377,7 @@ func runHTTPActions(l []Action, w http.ResponseWriter) {
 		case 2:
 			w.Write([]byte(a.A))
 		case 5:
-			panic(a.A)
+			panicWith(a.A)
 		}
 	}
 }
@@ -466,8 +477,11 @@ func buildDisp(cfg Sx, env *dispEnv) *restful.Container {
 	for _, sv := range t.Services {
 		ws := new(restful.WebService)
 		ws.Path(sv.Root)
-		for _, f := range sf[sv.Root] {
-			ws.Filter(mkFilter(f, env))
+		lateFilters := len(sv.Routes)%2 == 1 // set-up order: service filters registered after the routes
+		if !lateFilters {
+			for _, f := range sf[sv.Root] {
+				ws.Filter(mkFilter(f, env))
+			}
 		}
 		for _, rs := range sv.Routes {
 			rs := rs
@@ -513,6 +527,11 @@ func buildDisp(cfg Sx, env *dispEnv) *restful.Container {
 				runActions(hs[rs.ID], rq, rp, lg)
 			})
 			ws.Route(b)
+		}
+		if lateFilters {
+			for _, f := range sf[sv.Root] {
+				ws.Filter(mkFilter(f, env))
+			}
 		}
 		func() {
 			defer func() { recover() }()
